@@ -80,6 +80,7 @@ def corpus():
     items.extend(other_tails(items))
     items.extend(not_converged(items))
     items.extend(odd_content(items))
+    items.extend(missing_rows(items))
     _STATE['corpus'] = items
     _STATE['by_name'] = {it['name']: i for i, it in enumerate(items)}
     return items
@@ -312,6 +313,49 @@ def without_a_option(items):
                     'base': 'noa-' + item['base'],
                     'data': ''.join(kept).encode('utf-8'),
                     'rows_removed': removed, 'derived': True})
+    return out
+
+
+def missing_rows(items):
+    '''Tables that lack one row somewhere (what '-a' does to zero scores,
+    here to any row): the builders dimension their arrays on one table and
+    fill them from the others.  A few crash points per listing are enough
+    (flag 'light'): what matters is the edition that holds the table.'''
+    import re
+    import zlib
+    row = re.compile(rb'^[ \t]*\d\.\d+e[-+]\d+[ \t]+(- )?\d\.\d+e[-+]\d+'
+                     rb'([ \t]+[-+]?\d\.\d+e[-+]\d+)+[ \t]*$')
+    out = []
+    for item in items:
+        if item.get('path') is None or 'failure' in item['base'] or \
+                len(out) >= 36:
+            continue
+        rich = any(w in item['base'] for w in ('greenband', 'sensitiv'))
+        if not rich and len([o for o in out if not o.get('rich')]) >= 12:
+            continue
+        lines = item['data'].split(b'\n')
+        tables, cur = [], []
+        for num, line in enumerate(lines):
+            if row.match(line):
+                cur.append(num)
+            else:
+                if len(cur) >= 2:
+                    tables.append(cur)
+                cur = []
+        if len(tables) < 2:
+            continue
+        rng = random.Random(zlib.crc32(item['base'].encode()))
+        picks = {0, len(tables) - 1} if rich else set()
+        while len(picks) < min(len(tables), 8 if rich else 1):
+            picks.add(rng.randrange(len(tables)))
+        for tno in sorted(picks):
+            kept = list(lines)
+            del kept[tables[tno][-1]]
+            out.append({'name': 'missing-row-t%d/%s' % (tno, item['base']),
+                        'path': None,
+                        'base': 'mr%d-%s' % (tno, item['base']),
+                        'data': b'\n'.join(kept), 'derived': True,
+                        'light': True, 'rich': rich})
     return out
 
 
@@ -960,8 +1004,11 @@ def enumeration(tier, seed):
         else:
             endflag, offs = key_offsets(item)
             cuts = set(endflag)
-            cuts.update(rng.sample(offs, min(len(offs), 400)))
-            cuts.update(rng.randrange(size + 1) for _ in range(300))
+            light = item.get('light')
+            cuts.update(rng.sample(offs, min(len(offs), 20 if light
+                                             else 400)))
+            cuts.update(rng.randrange(size + 1)
+                        for _ in range(20 if light else 300))
             cuts.add(size)
             cuts.add(0)
             cuts = sorted(cuts)
